@@ -184,13 +184,15 @@ def canon_value(v):
 
 
 def declared_null(content):
-    """The NULL value the well section declares (a number), else None."""
+    """The NULL value the well section declares (first NULL line, int or float value), else None."""
     for s in content['sects']:
         if s['typ'] == 'W' and s['kind'] == 'H':
             for h in s['lines']:
-                if h['mnem'] == 'NULL' and h['value'][0] in ('i', 'f'):
+                if h['mnem'] == 'NULL':
                     v = h['value']
-                    return float(v[1]) if v[0] == 'i' else dec_to_float(v[1], v[2])
+                    if v[0] == 'i': return float(v[1])
+                    if v[0] == 'f': return dec_to_float(v[1], v[2])
+                    return None
             break
     return None
 
@@ -355,7 +357,7 @@ def gen_content(rng, max_curves=6, max_frames=8, wrap=None, null=None, bad_rate=
     """A well-formed content (see Spec.lean `wfContent`).  `wrap`: None = random."""
     if wrap is None:
         wrap = rng.random() < 0.4
-    ncur = rng.randint(2 if wrap else 1, max(2, max_curves))
+    ncur = rng.randint(1, max(1, max_curves))
     nfr = rng.randint(0 if rng.random() < 0.05 else 1, max_frames)
     vers = rng.choice([['f', 12, -1], ['f', 20, -1], ['f', 2, 0], ['i', 2], ['f', 200, -2], ['f', 120, -2]])
     wv = rng.choice([['b', 1], ['i', 1], ['f', 10, -1]]) if wrap else rng.choice([['b', 0], ['i', 0], ['f', 0, 0]])
@@ -370,7 +372,7 @@ def gen_content(rng, max_curves=6, max_frames=8, wrap=None, null=None, bad_rate=
         if rng.random() < 0.6: h['value'] = ['t', '']
         curves.append(h)
     if null is None:
-        null = rng.choice([['f', -99925, -2]] * 6 + [['f', -999250, -3], None])
+        null = rng.choice([['f', -99925, -2]] * 4 + [['f', -999250, -3], None, ['f', -9999, 0], ['i', -9999], ['f', -99999, -2], ['t', 'none'], ['b', 1]])
     wl = []
     for mn in ('STRT', 'STOP', 'STEP'):
         m, e = gen_decimal(rng, 8, 3)
@@ -393,12 +395,13 @@ def gen_content(rng, max_curves=6, max_frames=8, wrap=None, null=None, bad_rate=
         rng.shuffle(sects)
     # frames: X strictly monotone (distinct doubles: at most 9 significant digits)
     x0, dx, xe = rng.randint(-10 ** 5, 10 ** 6), rng.choice([1, 5, 25, 125, 1524]) * rng.choice([1, -1]), -rng.randint(0, 3)
+    nullf = NULL_DEFAULT if null is None or null[0] not in 'if' else (float(null[1]) if null[0] == 'i' else dec_to_float(null[1], null[2]))
     frames = []
     bad_x = allow_bad_x and rng.random() < 0.05
     bad_x_at = rng.randrange(nfr) if (bad_x and nfr) else -1
     for f in range(nfr):
         row = [['n', x0 + f * dx, xe]]
-        if f == bad_x_at and all((x0 + g * dx, xe) != (-99925, -2) for g in range(nfr)):
+        if f == bad_x_at and all(dec_to_float(x0 + g * dx, xe) != nullf for g in range(nfr)):
             row = [['x', gen_bad_token(rng)]]
         for c in range(1, ncur):
             if rng.random() < bad_rate:
